@@ -12,6 +12,7 @@ import (
 	"runtime/debug"
 	"runtime/pprof"
 	"sort"
+	"strings"
 	"syscall"
 
 	"github.com/uhn/ggql/pkg/ggql"
@@ -287,8 +288,36 @@ func (w *Worker) exerciseSchema(label string, root *ggql.Root) {
 	})
 }
 
+// runHistory: the parts of the input (cut at "#cut") are loaded one after the other into one root, which is put to
+// use after every load, accepted or refused.
+func (w *Worker) runHistory(parts []string) {
+	root := ggql.NewRoot(nil)
+	for i, part := range parts {
+		i, part := i, part
+		label := fmt.Sprintf("load%d", i+1)
+		w.step(label+"/ParseString", func() string { return part }, func() {
+			if err := root.ParseString(part); err == nil {
+				w.accepted("sdl:" + label)
+			}
+		})
+		w.exerciseSchema(label, root)
+		root.AnyResolver = nilAny{}
+		for _, q := range []string{introspection, "{ f(a: {}) }", "{ f }", "query($v: A = {}) { f(a: $v) }", "{ g }", "{ g(b: {}) f(a: {x: 1}) }"} {
+			q := q
+			w.step(label+"/ResolveString", func() string { return q }, func() {
+				_ = ggql.WriteJSONValue(io.Discard, root.ResolveString(q, "", nil))
+			})
+		}
+		root.AnyResolver = nil
+	}
+}
+
 func (w *Worker) runSDL(c *Case, in []byte) {
 	text := string(in)
+	if parts := strings.Split(text, "#cut"); len(parts) > 1 {
+		w.runHistory(parts)
+		return
+	}
 	root := ggql.NewRoot(nil)
 	var err error
 	w.step("fresh/ParseString", nil, func() { err = root.ParseString(text) })
